@@ -94,14 +94,15 @@ def one(rep, rng, j):
         names = list(spec['tasks'])
         kinds = ['raise:ValueError', 'raise:ValueError', 'raise:SystemExit', 'raise:Multi']
         scn['failing'] = {n: rng.choice(kinds) for n in rng.sample(names, rng.randrange(1, min(3, len(names)) + 1))}
-        scn['cof'] = True
+        scn['cof'] = rng.random() < 0.75      # with False run_tasks leaves by raising LabError at the first failure
     if proc:
         scn['gated'] = rng.random() < 0.6
         if not scn['gated']:
             scn['free_sleep'] = [0.0, 0.0, 0.01]
     out = engine.run_dag(scn)
     wit = {'scenario': scn}
-    if getattr(out, 'aborted', None) or out.exc is not None:
+    raised_lab_error = out.exc is not None and type(out.exc).__name__ == 'LabError' and not scn.get('cof', True)
+    if getattr(out, 'aborted', None) or (out.exc is not None and not raised_lab_error):
         rep.inconclusive(f'run did not complete normally: {getattr(out, "aborted", None) or out.exc_info}', wit)
         return
     text = '\n'.join(m for _, m in out.logs)
@@ -121,9 +122,17 @@ def one(rep, rng, j):
     def emits(n):
         # executed, and no dependency failed (a task whose dependency failed raises before it logs anything)
         return n in E and not any(d in tainted for d in flat_deps(spec, n))
+    if raised_lab_error:
+        rep.count('runs_left_by_LabError')
     for t, (n, ch) in tokens.items():
         if not emits(n):
             continue        # never got to its logging statements
+        if raised_lab_error and n not in yields:
+            # run_tasks left by raising: only the tasks whose completion it had been handed count; the rest may
+            # still be running (but nothing may be duplicated)
+            if text.count(t) > 1:
+                bad.setdefault('duplicated:' + ch, f'token of {n} received {text.count(t)} times')
+            continue
         if n in (scn.get('failing') or {}):
             rep.count('tokens_of_failing_tasks')
         k = text.count(t)
